@@ -7,9 +7,13 @@
 package main
 
 import (
+	"context"
 	"errors"
 	"fmt"
+	"go.uber.org/zap/exp/zapslog"
+	"log/slog"
 	"strings"
+	"time"
 
 	"go.uber.org/zap"
 	"go.uber.org/zap/zapcore"
@@ -71,6 +75,7 @@ type endMode struct {
 	name                string
 	lvl                 zapcore.Level
 	panics, goexit, dev bool
+	direct              string // "": through a zap.Logger; "core": Core.Check + CheckedEntry.Write without a Logger (no error output configured); "slog": through the zapslog handler (no error output either)
 }
 
 var modes = []endMode{
@@ -81,6 +86,9 @@ var modes = []endMode{
 	{name: "dpanic(Development)", lvl: zapcore.DPanicLevel, panics: true, dev: true},
 	{name: "dpanic(production)", lvl: zapcore.DPanicLevel},
 	{name: "fatal(WriteThenGoexit)", lvl: zapcore.FatalLevel, goexit: true},
+	{name: "info, Core.Check+Write without a Logger", lvl: zapcore.InfoLevel, direct: "core"},
+	{name: "error, Core.Check+Write without a Logger", lvl: zapcore.ErrorLevel, direct: "core"},
+	{name: "warn, through the zapslog handler", lvl: zapcore.WarnLevel, direct: "slog"},
 }
 
 func sinkFaults(run *ev.Run, maxK int) (evals int, distinct map[string]bool) {
@@ -174,6 +182,14 @@ func sinkFaults(run *ev.Run, maxK int) (evals int, distinct map[string]bool) {
 									}()
 									logger.Log(lvl, msg, zap.Int("n", e))
 								}()
+							case mode.direct == "core":
+								if ce := core.Check(zapcore.Entry{Level: lvl, Message: msg, Time: time.Unix(1700000000, 0)}, nil); ce != nil {
+									ce.Write(zap.Int("n", e))
+								}
+							case mode.direct == "slog":
+								r := slog.NewRecord(time.Unix(1700000000, 0), slog.LevelWarn, msg, 0)
+								r.AddAttrs(slog.Int("n", e))
+								_ = zapslog.NewHandler(core).Handle(context.Background(), r)
 							default:
 								logger.Log(lvl, msg, zap.Int("n", e))
 							}
@@ -198,6 +214,9 @@ func sinkFaults(run *ev.Run, maxK int) (evals int, distinct map[string]bool) {
 								run.Report(key("destination-incomplete"), fmt.Sprintf("%s: destination %d entry %d got %q", desc, i, e, w), desc)
 							}
 						}
+					}
+					if mode.direct != "" {
+						continue // no error output exists on these paths: delivery to every destination and a normal return are what is required
 					}
 					// the error output names every write error, once per failing entry
 					rep := eo.b.String()
@@ -261,7 +280,7 @@ func main() {
 	run.Assume = []string{
 		"field faults: marshaler error before / between / after children at every node of every tree with <= the stated number of nodes, unencodable reflected values (channel, failing json.Marshaler) as fields and as array elements, panicking Stringer / Error() / Errors(), nil-pointer Stringer and error (rendered as \"<nil>\" under the field's own key, which zap documents in encodeStringer/encodeError)",
 		"elements of the same array after a failing element are not required (zap's array marshalers stop at the first error; the statement speaks of other fields)",
-		"sink/core faults: every vector over {ok, write error, short write + error, sync error, nothing written + error} for tees and multi-syncers of k destinations, two entries each, ending in every way an entry can end: info, error, dpanic (production), fatal with a hook standing in for os.Exit (the report must be on the error output when the hook starts), panic, dpanic under Development (recovered), fatal with WriteThenGoexit (own goroutine)",
+		"sink/core faults: every vector over {ok, write error, short write + error, sync error, nothing written + error} for tees and multi-syncers of k destinations, two entries each, ending in every way an entry can end: info, error, dpanic (production), fatal with a hook standing in for os.Exit (the report must be on the error output when the hook starts), panic, dpanic under Development (recovered), fatal with WriteThenGoexit (own goroutine); and the same vectors through Core.Check + CheckedEntry.Write without a Logger and through the zapslog handler, where no error output is configured (every destination still receives the entry, the call returns)",
 		"field faults are also run with a user-supplied NewReflectedEncoder that has already written part of its output when it fails (a streaming encoder)",
 	}
 	cov := d.Coverage("field part: one evaluation = one log call on the real JSON core with a failing field somewhere in the tree, decoded and compared with the reference tree that contains the <key>Error member and every other field; sink part: one evaluation = one (topology, outcome vector, level) run of two entries; distinct = distinct output lines / outcome vectors")
